@@ -110,9 +110,9 @@ pub mod sample {
             for j in 0..coeff_modulus_size {
                 destination[i + j * coeff_count] = 
                     if sampled >= 0 {
-                        sampled as u64
+                        coeff_modulus[j].reduce(sampled as u64)
                     } else {
-                        coeff_modulus[j].value() - sampled.unsigned_abs() as u64
+                        util::negate_u64_mod(coeff_modulus[j].reduce(sampled.unsigned_abs() as u64), &coeff_modulus[j])
                     };
             }
         }
